@@ -37,6 +37,8 @@ def part_a(rep, cov, tier):
                 if r["coverage"].get(act, 0) == 0:
                     raise vlib.ToolError("action %s never taken in %s" % (act, c))
         for b in r["replay"]:
+            if b.get("R") != "lex":
+                continue
             by_text.setdefault(tuple(b["text"]), []).append(b["toks"])
     cases, meta = [], []
     for classes, behaviours in by_text.items():
